@@ -259,32 +259,40 @@ def playback_for(crate, features, harness, timeout_s, mem_gb):
 
 
 def native_replay(crate, features, harness, test_src):
-    """Run the playback test against the real crates natively (dev, then release).
-    returns (reproduced: bool, output tail)"""
+    """Run the playback test(s) against the real crates natively (dev profile, then release settings).
+    Every test runs in its OWN process: harnesses keep observations in statics, which Kani resets per
+    harness but a test binary shares between tests.  returns ([dev reproduced, release reproduced], outputs)"""
     mod = harness.split("::")[-2] if "::" in harness else None
     d = crate_dir(crate)
     gfile = os.path.join(d, "src", "gen", f"playback_{mod}.rs")
     open(gfile, "w").write(test_src)
+    names = re.findall(r"fn (kani_concrete_playback_\w+)\(", test_src)
     outs, repro = [], []
     try:
         for prof in ([], ["--release"]):
             env = dict(ENV, CARGO_TARGET_DIR=os.path.join(KANI_DIR, f"playback-{crate}"))
-            cmd = ["cargo", "kani", "playback", "-Z", "concrete-playback", "-Z", "stubbing", "--lib"] + feat_args(features) + \
-                  ["--", "kani_concrete_playback"]
             if prof:
                 # `cargo kani playback` has no --release: give the dev profile release settings via env
                 env["CARGO_PROFILE_DEV_OPT_LEVEL"] = "3"
                 env["CARGO_PROFILE_DEV_DEBUG_ASSERTIONS"] = "false"
                 env["CARGO_PROFILE_DEV_OVERFLOW_CHECKS"] = "false"
                 env["CARGO_TARGET_DIR"] = os.path.join(KANI_DIR, f"playback-{crate}-rel")
-            r = subprocess.run(cmd, cwd=d, env=env, capture_output=True, text=True)
-            out = r.stdout + r.stderr
-            outs.append(out[-3000:])
-            ran = re.search(r"test result: (\w+)\. (\d+) passed; (\d+) failed", out)
-            # a harness that aborts the test process (e.g. a panic inside a destructor) is a reproduction too,
-            # but only if no test summary was printed at all for the lib test binary
-            crashed = (ran is None) and re.search(r"\(signal: \d+", out) and "running" in out
-            repro.append(bool((ran and int(ran.group(3)) > 0) or crashed))
+            failed, tail = False, ""
+            for nm in names:
+                cmd = ["cargo", "kani", "playback", "-Z", "concrete-playback", "-Z", "stubbing", "--lib"] + feat_args(features) + \
+                      ["--", "--exact", f"{mod}::{nm}", "--test-threads", "1"]
+                r = subprocess.run(cmd, cwd=d, env=env, capture_output=True, text=True)
+                out = r.stdout + r.stderr
+                ran = re.search(r"test result: (\w+)\. (\d+) passed; (\d+) failed", out)
+                # a harness that aborts the test process (panic inside a destructor) is a reproduction too
+                crashed = (ran is None) and re.search(r"\(signal: \d+", out) and "running 1 test" in out
+                if (ran and int(ran.group(3)) > 0) or crashed:
+                    failed, tail = True, out[-3000:]
+                    break
+                if ran is None or int(ran.group(2)) != 1:
+                    tail = out[-3000:]  # the test did not run: treated as not reproduced, output kept
+            outs.append(tail)
+            repro.append(failed)
     finally:
         open(gfile, "w").write("")
     return repro, outs
